@@ -1,9 +1,11 @@
 import CJ.Drv.Loop
 import CJ.Drv.AtomicStore
-/-! Driver for C20: the atomic-store model. -/
+import CJ.Drv.AssetsMem
+/-! Driver for C20: the atomic-store model (system-call level) and the in-memory model of the asset store (call level). -/
 open CJ.Drv
 
 def main : IO Unit := runDriver fun
   | "store" :: args => AtomicStore.handle args
   | "crash" :: args => AtomicStore.handleCrash args
+  | "mem" :: args => AssetsMem.handle args
   | _ => none
